@@ -214,8 +214,9 @@ Fixpoint chunks (n : nat) (fuel : nat) (s : bytes) : result (list bytes) :=
     match fuel with
     | O => Err E_FUEL
     | S f =>
-      if (length s <? n)%nat then Err E_OOR
-      else rbind (chunks n f (skipn n s)) (fun r => Ok (firstn n s :: r))
+      let c := firstn n s in
+      if (length c <? n)%nat then Err E_OOR
+      else rbind (chunks n f (skipn n s)) (fun r => Ok (c :: r))
     end
   end.
 
@@ -247,8 +248,9 @@ Fixpoint alpn_ids (fuel : nat) (s : bytes) : result (list bytes) :=
     match fuel with
     | O => Err E_FUEL
     | S f =>
-      if nlen t <? l then Err E_OOR
-      else rbind (alpn_ids f (skipn (N.to_nat l) t)) (fun r => Ok (firstn (N.to_nat l) t :: r))
+      let c := firstn (N.to_nat l) t in
+      if nlen c <? l then Err E_OOR
+      else rbind (alpn_ids f (skipn (N.to_nat l) t)) (fun r => Ok (c :: r))
     end
   end.
 Definition unm_alpn (v : bytes) : result bytes :=
